@@ -228,19 +228,23 @@ impl Runner {
             .enumerate()
             .map(|(i, t)| {
                 format!(
-                    "{}={} published={} closed={} parks={}",
+                    "{}={} published={} closed={} parks={} wake_latched={}",
                     names[i],
                     t.state_name(),
                     t.published.load(Relaxed),
                     t.closed.load(Relaxed),
-                    t.parks.load(Relaxed)
+                    t.parks.load(Relaxed),
+                    t.wake.notified.load(Relaxed)
                 )
             })
             .collect();
         let stable = a == b;
         let all_blocked = b.iter().all(|(s, _, _)| *s != exec::RUNNING);
         let any_parked = b.iter().any(|(s, _, _)| *s == exec::PARKED);
-        if stable && all_blocked && any_parked {
+        // a parked task whose waker HAS been called is runnable, merely not scheduled yet (an
+        // oversubscribed machine): that is slowness, not a lost wake-up
+        let all_asleep = tasks.iter().all(|t| !t.is_parked() || t.is_asleep());
+        if stable && all_blocked && any_parked && all_asleep {
             let parked: Vec<&str> = tasks
                 .iter()
                 .enumerate()
